@@ -4,6 +4,7 @@ import (
 	"encoding/binary"
 	"encoding/json"
 	"fmt"
+	"strings"
 	"time"
 
 	"simlal/sim"
@@ -31,9 +32,12 @@ type WireItem struct {
 }
 
 type HostileConn struct {
-	Prefix int        `json:"prefix"` // 0 nothing, 1 handshake, 2 +connect, 3 +createStream, 4 +publish, 5 +play
-	Stream string     `json:"stream"`
-	Items  []WireItem `json:"items"`
+	Prefix int    `json:"prefix"` // 0 nothing, 1 handshake, 2 +connect, 3 +createStream, 4 +publish, 5 +play
+	Stream string `json:"stream"`
+	// TcUrl: the tcUrl of the connect command in the valid prefix ("" = the usual rtmp://127.0.0.1/live); lal appends
+	// the stream name to it and parses the result, so odd forms of both are part of the input space
+	TcUrl string     `json:"tc_url,omitempty"`
+	Items []WireItem `json:"items"`
 }
 
 type HostilePlan struct {
@@ -172,11 +176,13 @@ func cmdPayload(it WireItem) []byte {
 		f.Num(float64(it.N))
 		switch it.Name {
 		case "connect":
-			f.Obj("app", "live", "tcUrl", "rtmp://x/live")
+			// tcUrl forms: the stream name is later appended to it and the result parsed as a URL
+			tc := []string{"rtmp://x/live", "rtmp://x", "rtmp://x/", "rtmp://", "", "x", "rtmp://x/live?a=b", "rtmp://x/a?x?y", "rtmp://x?x?y", "http://x/live", "rtmp://x:99999/live", "rtmp://[::1/live", "rtmp://x/live/" + strings.Repeat("seg/", 50), "rtmp://x/%zz"}[it.N%14]
+			f.Obj("app", []string{"live", "", "a?x?y", "/"}[(it.N/14)%4], "tcUrl", tc)
 		case "publish":
-			f.Null().Str("hostile").Str("live")
+			f.Null().Str([]string{"hostile", "a?x?y", "?", "??", "a?b=c?d=e/f", "", "/", "a/b/c", "%zz", "a b"}[it.N%10]).Str("live")
 		case "play":
-			f.Null().Str("hostile")
+			f.Null().Str([]string{"hostile", "a?x?y", "?", "??", "a?b=c?d=e/f", "", "/", "a/b/c", "%zz", "a b"}[it.N%10])
 		default:
 			f.Null()
 		}
@@ -292,7 +298,14 @@ func (a *hostileActor) OnData(c *sim.Conn, b []byte) {
 	}
 }
 
-func (a *hostileActor) send(m rtmpc.Msg) { a.conn.Send(a.w.Encode(m)) }
+func (a *hostileActor) send(m rtmpc.Msg) {
+	// a 16 MiB message cut into 1..100-byte chunks is millions of chunks: legitimate, but it only measures the
+	// simulated socket; keep a message to at most 100000 chunks
+	if cs := a.w.ChunkSize; cs > 0 && len(m.Payload)/cs > 100000 {
+		m.Payload = m.Payload[:cs*100000]
+	}
+	a.conn.Send(a.w.Encode(m))
+}
 
 func (a *hostileActor) cmd(name string, tid float64, rest func(*rtmpc.Amf)) {
 	var f rtmpc.Amf
@@ -306,7 +319,11 @@ func (a *hostileActor) cmd(name string, tid float64, rest func(*rtmpc.Amf)) {
 func (a *hostileActor) advancePrefix() {
 	p := a.plan.Prefix
 	if p >= 2 {
-		a.cmd("connect", 1, func(f *rtmpc.Amf) { f.Obj("app", "live", "tcUrl", "rtmp://127.0.0.1/live") })
+		tc := a.plan.TcUrl
+		if tc == "" {
+			tc = "rtmp://127.0.0.1/live"
+		}
+		a.cmd("connect", 1, func(f *rtmpc.Amf) { f.Obj("app", "live", "tcUrl", tc) })
 	}
 	if p >= 3 {
 		a.cmd("createStream", 2, func(f *rtmpc.Amf) { f.Null() })
@@ -393,7 +410,7 @@ func genWireItems(r *sim.Rng, n int, asPublisher bool) []WireItem {
 		case 2: // control messages with short payloads
 			items = append(items, WireItem{Kind: "msg", Type: []int{1, 2, 3, 4, 5, 6}[r.Intn(6)], Csid: 2, Gen: "zeros", N: r.Intn(4)})
 		case 3:
-			items = append(items, WireItem{Kind: "cmd", Name: []string{"connect", "createStream", "publish", "play", "deleteStream", "FCPublish", "releaseStream", "getStreamLength", "pause", "xyz", "_result", "onStatus"}[r.Intn(12)], Shape: r.Intn(10), N: r.Intn(5), Msid: r.Intn(2), Type: []int{0, 0, 0, 17}[r.Intn(4)]})
+			items = append(items, WireItem{Kind: "cmd", Name: []string{"connect", "createStream", "publish", "play", "deleteStream", "FCPublish", "releaseStream", "getStreamLength", "pause", "xyz", "_result", "onStatus"}[r.Intn(12)], Shape: []int{0, 0, 0, r.Intn(10)}[r.Intn(4)], N: r.Intn(60), Msid: r.Intn(2), Type: []int{0, 0, 0, 17}[r.Intn(4)]})
 		case 4: // media / data before or after the role is fixed
 			gen := []string{"video_hdr", "audio_hdr", "valid_video", "valid_audio", "seqhdr_trunc", "hevc_seqhdr_trunc", "nal_zero_len"}[r.Intn(7)]
 			t := 9
@@ -457,6 +474,10 @@ func genC04Plan(r *sim.Rng, tier string) HostilePlan {
 	nConn := 1 + r.Intn(3)
 	for i := 0; i < nConn; i++ {
 		hc := HostileConn{Prefix: []int{0, 1, 2, 3, 4, 4, 5, 5}[r.Intn(8)], Stream: []string{"hostile", "hostile", "by", "x/../y"}[r.Intn(4)]}
+		if r.Bool(0.25) {
+			hc.TcUrl = []string{"rtmp://x", "rtmp://x/", "rtmp://", "x", "rtmp://x/live?a=b", "rtmp://x?x?y", "http://x/live", "rtmp://x:99999/live", "rtmp://[::1/live", "rtmp://x/%zz", "rtmp://x/a/b/c/d"}[r.Intn(11)]
+			hc.Stream = []string{"hostile", "a?x?y", "?", "??", "a?b=c?d=e/f", "", "/", "a/b/c", "%zz", "a b", "?x?y"}[r.Intn(11)]
+		}
 		n := 1 + r.Intn(10)
 		if tier == "thorough" {
 			n = 1 + r.Intn(30)
